@@ -73,10 +73,22 @@ pub fn exec_a(c: &CaseA) -> Outcome {
     // reference model
     let mut outcome: Vec<Option<bool>> = vec![None; c.n];
     let mut next: u64 = 0; // next offset to emit
-    let mut sm = ConfirmSmoother::with_expected_delivery_tag(c.start);
+    // a smoother for the tags 1, 2, ... can be had three ways; all are documented to expect 1
+    let mut sm = if c.start == 1 {
+        match (c.n + c.steps.len()) % 3 {
+            0 => ConfirmSmoother::new(),
+            1 => ConfirmSmoother::default(),
+            _ => ConfirmSmoother::with_expected_delivery_tag(1),
+        }
+    } else {
+        ConfirmSmoother::with_expected_delivery_tag(c.start)
+    };
     let mut nontrivial = false;
     let mut singles_pending: BTreeSet<u64> = BTreeSet::new();
     let mut labels: Vec<String> = Vec::new();
+    if c.start == 1 && (c.n + c.steps.len()) % 3 == 1 {
+        labels.push("smoother-from-default".into());
+    }
     for (step_no, (t, multiple, ack, take)) in hist.iter().copied().enumerate() {
         // model: first confirmation covering a tag decides its outcome
         let mut covered_stored = false;
